@@ -701,7 +701,36 @@ fn replay(cfg: &Cfg, which: &str, p: &std::path::Path) -> Stats {
     let s = parallel(&Cfg { threads: 1, ..cfg.clone() }, 9, |t| {
         let kind = m.get("kind").cloned().unwrap_or_default();
         if kind == "c06-multi" {
-            t.st.inconclusive("multi-frame replay: the buffer and shapes are in the replay file; re-run the check to reproduce".into());
+            // rebuild the items from the recorded buffer: split at zeros, reference-decode each frame
+            let buffer = unhex(m.get("buffer").map(|s| s.as_str()).unwrap_or("")).unwrap_or_default();
+            let shapes: Vec<Shape> = m.get("shapes").map(|s| s.split(" ; ").filter_map(|x| Shape::parse(x.trim()).ok()).collect()).unwrap_or_default();
+            let drop_last = buffer.last() != Some(&0);
+            let mut items = Vec::new();
+            let mut start = 0usize;
+            let mut k = 0usize;
+            for i in 0..=buffer.len() {
+                let at_end = i == buffer.len();
+                if (at_end && start < buffer.len()) || (!at_end && buffer[i] == 0) {
+                    if k >= shapes.len() {
+                        break;
+                    }
+                    let body = &buffer[start..i];
+                    if let CobsRef::Ok(payload) = cobs_decode_frame(body) {
+                        if let Ok(d) = spec::decode(&shapes[k], &payload) {
+                            let mut f = body.to_vec();
+                            f.push(0);
+                            items.push((shapes[k].clone(), d.val, f));
+                        }
+                    }
+                    k += 1;
+                    start = i + 1;
+                }
+            }
+            if items.len() != shapes.len() {
+                t.st.inconclusive("multi-frame replay: could not rebuild the frame sequence from the replay file".into());
+                return;
+            }
+            c06_multi(t, &items, drop_last);
             return;
         }
         let text = m.get("shape").cloned().unwrap_or_default();
